@@ -178,6 +178,14 @@ def target_structure(ck, I, L, times_vns, full, geo, count, roles, method, rule,
                   and mask.op == "UnaryOp" and mask.attr in ("Invert", "Not"))
             detail = f"zeroed where {g.show(mask, 2) if mask is not None else '?'} if {g.show(cond, 2)} is {pol}"
             out["darksky"] = (cond, mask)
+            if ok:
+                from .common import boolean_valued
+                bv = boolean_valued(I.res(mask.args[0], ef.st) if hasattr(ef, "st") else mask.args[0])
+                if bv is False:
+                    ck.ob(f"{rule}.4", f"{tag}: the dark-sky mask that is negated is a boolean array (its `~` is the "
+                          "logical complement)", False, mask, func, f"{g.show(mask.args[0], 3)} is an integer array "
+                          "(truth values mixed with 0 / 1): `~` gives -1 / -2 and the store zeroes the last events of the "
+                          "batch instead of the bright-sky ones", construct=f"{func}: ~ applied to an integer-valued mask")
         ck.ob(f"{rule}.4", f"{tag}: dark-sky cut applied under (switch and method=='Optical'), removing "
               "events where the mask is False", ok, full, func, detail)
     else:
